@@ -796,3 +796,80 @@ package lorawan
 //@   loop 1: decreases len(pending) - rangeindex
 //@   ensures C09/len: (err == nil) == (len(data) <= 15)
 //@   ensures C10/fresh: err == nil ==> p.ChannelMasks == nil || fresh(p.ChannelMasks)
+
+// ---------------------------------------------------------------------------
+// C09 (and the "does not write to its input" half of C10): decoder entry points with
+// thin contracts -- no panic for any input bytes, no write outside the receiver.
+// Functional postconditions of the frame decoders are added under C01/C08.
+// ---------------------------------------------------------------------------
+
+//@ func (*PHYPayload).UnmarshalBinary
+//@   props C09 C10
+//@   modifies *p
+//@   ensures C09/short: len(data) < 5 ==> err != nil
+
+//@ func (*PHYPayload).UnmarshalText
+//@   props C09 C10
+//@   modifies *p
+
+//@ func (*MACPayload).UnmarshalBinary
+//@   props C09 C10
+//@   modifies *p
+//@   ensures C09/short: len(data) < 7 ==> err != nil
+
+//@ func (*FHDR).UnmarshalBinary
+//@   props C09 C10
+//@   modifies *h
+//@   ensures C09/short: len(data) < 7 ==> err != nil
+
+//@ func (*JoinAcceptPayload).UnmarshalBinary
+//@   props C09 C10
+//@   modifies *p
+//@   ensures C09/len: err == nil ==> len(data) == 12 || len(data) == 28
+
+//@ func (*CFList).UnmarshalBinary
+//@   props C09 C10
+//@   modifies *l
+//@   ensures C09/len: err == nil ==> len(data) == 16
+
+//@ func (*PHYPayload).DecodeFOptsToMACCommands
+//@   props C09 C10
+//@   uses registry_ok
+//@   requires typed-nil-mac: istype(p.MACPayload, "*MACPayload") ==> as(p.MACPayload, "*MACPayload") != nil
+//@   requires typed-nil-fopts: istype(p.MACPayload, "*MACPayload") && len(as(p.MACPayload, "*MACPayload").FHDR.FOpts) == 1 && istype(as(p.MACPayload, "*MACPayload").FHDR.FOpts[0], "*DataPayload") ==> as(as(p.MACPayload, "*MACPayload").FHDR.FOpts[0], "*DataPayload") != nil
+//@   modifies as(p.MACPayload, "*MACPayload").FHDR.FOpts
+
+//@ func (*PHYPayload).DecodeFRMPayloadToMACCommands
+//@   props C09 C10
+//@   uses registry_ok
+//@   requires typed-nil-mac: istype(p.MACPayload, "*MACPayload") ==> as(p.MACPayload, "*MACPayload") != nil
+//@   requires typed-nil-frm: istype(p.MACPayload, "*MACPayload") && len(as(p.MACPayload, "*MACPayload").FRMPayload) == 1 && istype(as(p.MACPayload, "*MACPayload").FRMPayload[0], "*DataPayload") ==> as(as(p.MACPayload, "*MACPayload").FRMPayload[0], "*DataPayload") != nil
+//@   modifies as(p.MACPayload, "*MACPayload").FRMPayload
+
+//@ func (*EUI64).UnmarshalText
+//@   props C09 C10 C11
+//@   modifies *e
+//@ func (*EUI64).Scan
+//@   props C09 C10 C11
+//@   modifies *e
+//@ func (*DevAddr).UnmarshalText
+//@   props C09 C10 C11
+//@   modifies *a
+//@ func (*DevAddr).Scan
+//@   props C09 C10 C11
+//@   modifies *a
+//@ func (*NetID).UnmarshalText
+//@   props C09 C10 C11
+//@   modifies *n
+//@ func (*NetID).Scan
+//@   props C09 C10 C11
+//@   modifies *n
+//@ func (*AES128Key).UnmarshalText
+//@   props C09 C10 C11
+//@   modifies *k
+//@ func (*AES128Key).Scan
+//@   props C09 C10 C11
+//@   modifies *k
+//@ func (*DLSettings).UnmarshalText
+//@   props C09 C10
+//@   modifies *s
